@@ -851,17 +851,17 @@ PROPS["C19"] = dict(
 PROPS["C17"] = dict(
     corr_module="Corr.C17",
     streams={"hist": dict(runner="C17_run", in_t="C17_in", out_t="C17_out", shard=8, imports=["Model.LockTable"])},   # streams "oracle" and "strace" are checked by the implementation oracle only
-    n_quick=32, n_thorough=140,
+    n_quick=33, n_thorough=140,
     harness_timeout=1500,
-    corpus_seeds=[(17001, 2)],   # log pre-sizing / growth before the first commit, then a second process knocks (caught a seeded unlock through a clone)
+    corpus_seeds=[(17001, 3)],   # log pre-sizing / growth before the first commit, then a second process knocks (caught a seeded unlock through a clone)
     rule="corpus first (seed 17001): log pre-sizing by begin_batch(wal_pre_size_bytes) and log growth inside batch-mode puts BEFORE the first commit, then four child processes at once try Memvid::open / open_read_only / doctor / a non-blocking flock while the writer is alive. "
          "Then 23 scripted histories (the F-C17-1 witness create; open(refused, 10 s); commit; open(granted) + lost commit, both opens repeated from a child process; put before the first commit; vacuum; "
          "close + reopen; doctor on the closed file, then open; doctor against a live handle before / after its first commit; vacuum then drop; an opener WAITING in the retry loop (thread) while the writer "
-         "commits twice and closes / just closes / is killed; kill (exit without commit); three writers; create on the path of a live writer (F-C17-2); one oracle-only history: put + commit after a doctor ran on the handle's inode; every operation that rewrites the file in place before the first writer's first commit -- begin_batch pre-size, growth inside batch puts, a single put larger than the 64 KiB log region, enable_vec / enable_lex, apply_ticket, pre-size + growth after close and reopen (data really shifted) -- each followed by the four child-process probes and an in-process open; oracle-only: downgrade_to_shared (second writer refused, reader admitted) and the upgrade by the next put) "
+         "commits twice and closes / just closes / is killed; kill (exit without commit); three writers; create on the path of a live writer (F-C17-2); one oracle-only history: put + commit after a doctor ran on the handle's inode; every operation that rewrites the file in place before the first writer's first commit -- begin_batch pre-size, growth inside batch puts, a single put larger than the 64 KiB log region, enable_vec / enable_lex, apply_ticket, pre-size + growth after close and reopen (data really shifted) -- each followed by the four child-process probes and an in-process open; oracle-only: downgrade_to_shared (second writer refused, reader admitted) and the upgrade by the next put; oracle-only and in the corpus: a FAILED upgrade -- writer A (reopened, no commit of its own) downgrades, a child process holds the shared lock (open_read_only, kept until released), A's put is refused after the 10 s retry and A must still report is_read_only() (else writable-without-lock), the reader leaves, B opens, A's next put must be refused against B's lock (two writable handles on one inode = two-writers-same-inode), B commits) "
          "+ random histories of 5-11 ops over up to 5 handles (put, commit, vacuum, open, drop, kill, doctor, pre-size, begin/end_batch, apply_ticket, enable_lex, enable_vec; at most one refused blocking open each; put -> commit kept adjacent once a lock sits on a replaced inode, "
          "no put by a handle whose inode a doctor rewrote: the model's log region is positional), 12 histories in parallel. Real handles live in one process on separate open file descriptions (flock is per description). "
          "Compared after EVERY step: call Ok / refused, path st_ino changed, non-blocking flock probe on the path (FileLock::try_acquire) refused or a waiter pending on that inode, per live handle whether its lock descriptor's st_ino "
-         "differs from the path's; at the end every live handle's frame table and the table a fresh open shows. Oracle on the implementation: never two live writable handles / a doctor with write access next to a live handle "
+         "differs from the path's; at the end every live handle's frame table and the table a fresh open shows. Oracle on the implementation: never two live writable (not is_read_only) handles / a doctor with write access next to a live handle "
          "(class by st_ino: lock inode <> path inode -> inode-replaced-under-lock, else two-writers-same-inode), every frame whose commit returned Ok is in the final file, a create refused on the lock leaves the file length unchanged, "
          "child-process open agrees with the in-process one; a child process let in (exclusively, or as reader next to a live writable handle) while a handle's lock descriptor is on the path's inode is two-writers-same-inode / lock-released-while-writer-alive (not listed: VIOLATION); stream strace: a writer process (create, pre-size, enable_vec/lex, apply_ticket, puts, growth inside put, commits, vacuum, drop) under strace -y -e flock: no flock(LOCK_UN) on the memory file before the handle is dropped, exactly one grant. non-trivial = a refused call or two live writers; distinct by digest of the op list; histories hit by a Tantivy start-up error under load are retried, then excluded and tagged",
     level_text="Unbounded theorems over a model of the lock table at the level of inodes and open file descriptions (flock per description, released with the last descriptor, per inode, rename moves no lock), any number of handles, "
